@@ -77,6 +77,8 @@ type sym struct {
 	stamp string // "own" | "none" | "wrong" | "zero"
 	// stamps (random campaign only): one request carrying several operations stamped differently
 	stamps []string
+	// untyped > 0: the untyped-th operation of the request (1-based) has no defined operation type
+	untyped int
 }
 
 func symbols(allParams bool) []sym {
@@ -112,6 +114,9 @@ func symbols(allParams bool) []sym {
 			out = append(out, sym{k: "ops", stamps: st})
 		}
 		out = append(out, sym{k: "ops", stamp: "zero"})
+		// operations of no defined type (op unset): alone or beside others, stamped or not
+		out = append(out, sym{k: "ops", stamps: []string{"none"}, untyped: 1}, sym{k: "ops", stamps: []string{"own"}, untyped: 1},
+			sym{k: "ops", stamps: []string{"own", "none"}, untyped: 2}, sym{k: "ops", stamps: []string{"own", "own", "own"}, untyped: 2}, sym{k: "ops", stamps: []string{"wrong"}, untyped: 1})
 	}
 	return out
 }
@@ -143,7 +148,11 @@ func build(seq [][2]int, syms []sym) sess.Script {
 			}
 			if len(y.stamps) > 0 {
 				for j, how := range y.stamps {
-					st.Ops = append(st.Ops, nhOp(uint64(100*(i+1)+j), stampOf(how)))
+					o := nhOp(uint64(100*(i+1)+j), stampOf(how))
+					if y.untyped == j+1 {
+						o.Act = "NONE"
+					}
+					st.Ops = append(st.Ops, o)
 				}
 			} else {
 				st.Ops = []*gen.Op{nhOp(uint64(i+1), stampOf(y.stamp))}
